@@ -9,7 +9,7 @@ import (
 // runExtractor regenerates lean/GqlModel/Gen from /repo's current sources.
 func runExtractor() string {
 	lean := filepath.Join(Root, "lean")
-	for _, f := range []func(string, string) error{extract.RunFacts, extract.RunExtractErrSites, extract.RunExtractStores} {
+	for _, f := range []func(string, string) error{extract.RunFacts, extract.RunExtractErrSites, extract.RunExtractStores, extract.RunPrelude} {
 		if err := f("/repo", lean); err != nil {
 			return err.Error()
 		}
